@@ -118,7 +118,8 @@ def gen_plan(rng, tier, run):
         for o in ops:
             if o["mode"] in ("-d", "-i") and rng.random() < 0.6 and c < 0.25:
                 o["arg"] = dname[-10:-2] if dname.endswith(".d") else dname[-8:]
-    return {"tree": tree, "ops": ops, "dname": dname, "fresh": rng.random() < 0.4, "bmc": rng.random() < 0.25}
+    return {"tree": tree, "ops": ops, "dname": dname, "fresh": rng.random() < 0.4, "bmc": rng.random() < 0.25,
+            "path_style": rng.choice(["abs", "abs", "abs", "rel", "slash"])}
 
 
 def argv_of(op, dname="D"):
@@ -193,6 +194,10 @@ def execute(plan):
         return {("D" + p[len(dname):] if p == dname or p.startswith(dname + "/") else p): v for p, v in snap.items()}
     with World(bmc=plan.get("dname", "D") if plan.get("bmc") else None) as w:
         w.fresh_per_run = bool(plan.get("fresh"))
+        w.path_style = plan.get("path_style", "abs")
+        w.rel_dot = bool(plan.get("fresh"))
+        if w.path_style != "abs":
+            bump("path_style:" + w.path_style)
         if plan.get("bmc"):
             bump("environment:bmc")
         bump("process_model:fresh" if w.fresh_per_run else "process_model:shared")
